@@ -270,3 +270,40 @@ func zzFatalDropsSession() {
 		zzsymCover("warning_keeps")
 	}
 }
+
+// The glue between the application's SessionStore and the flight handlers (newHandshakeConfig, config.go) is
+// transparent: for a stored entry with an id of 0..3 and a secret of 0..3 ARBITRARY bytes (lengths chosen
+// independently: truncated, empty and odd-sized secrets included - "every store content"), GetSession hands the
+// handlers exactly the stored (id, secret) pair, byte for byte and with the stored lengths; for a key the store
+// does not know it reports "no session" (nil id); SetSession and DelSession pass key, id and secret through
+// unchanged. The handlers decide on what the store really holds: an entry is never reported as present while its
+// secret is withheld (which would let both sides agree on an EMPTY master secret), and a mismatch in the real
+// secrets always reaches the Finished checks of fin.go.
+//
+//symgo:entry covers=adapter_hit,adapter_miss,adapter_set_del
+func zzStoreAdapterIsTransparent() {
+	ev := &zzNEvents{}
+	store := &zzNStore{ev: ev}
+	hc := newHandshakeConfig(&dtlsConfig{sessionStore: store}, connConfigValues{logger: zzNLog{}}, nil)
+	zzsymAssert(hc.HasSessionStore, "adapter_reports_store")
+	key := zzsymBytes("key", 2)
+	id := zzsymBytes("stored_id", zzsymChoice("idlen", 4))
+	sec := zzsymBytes("stored_secret", zzsymChoice("seclen", 4))
+	if zzsymChoice("stored", 2) == 1 {
+		store.key, store.id, store.sec = append([]byte{}, key...), id, sec
+		gid, gsec, err := hc.GetSession(key)
+		zzsymAssert(err == nil, "adapter_get_ok")
+		zzsymAssert(len(gid) == len(id) && zzsymEqBytes(gid, id), "adapter_returns_the_stored_id")
+		zzsymAssert(len(gsec) == len(sec) && zzsymEqBytes(gsec, sec), "adapter_returns_the_stored_secret_whatever_its_length")
+		zzsymCover("adapter_hit")
+	} else {
+		gid, gsec, err := hc.GetSession(key)
+		zzsymAssert(err == nil && len(gid) == 0 && len(gsec) == 0, "adapter_unknown_key_is_no_session")
+		zzsymCover("adapter_miss")
+	}
+	zzsymAssert(hc.SetSession(key, id, sec) == nil && store.sets == 1, "adapter_set_called_once")
+	zzsymAssert(zzsymEqBytes(store.key, key) && zzsymEqBytes(store.id, id) && zzsymEqBytes(store.sec, sec) &&
+		len(store.id) == len(id) && len(store.sec) == len(sec), "adapter_set_passes_key_id_secret_unchanged")
+	zzsymAssert(hc.DelSession(key) == nil && len(store.dels) == 1 && zzsymEqBytes(store.dels[0], key), "adapter_del_passes_key_unchanged")
+	zzsymCover("adapter_set_del")
+}
